@@ -373,7 +373,19 @@ def discharge_one(ob, tier="quick", inproc_ms=3000, ext_s=30):
 def discharge(obligations, tier="quick"):
     ext_s = 30 if tier == "quick" else 300
     inproc = 3000 if tier == "quick" else 10000
-    return [discharge_one(ob, tier, inproc, ext_s) for ob in obligations]
+    out = []
+    for ob in obligations:
+        r = discharge_one(ob, tier, inproc, ext_s)
+        if r.status == "unknown":
+            # the solver budgets are wall time: on a loaded machine a query that normally takes a fraction of a
+            # second can run out of it.  An undecided obligation is asked once more with a larger budget before it is
+            # reported as undecided (exit 2); a verdict is never taken from a timeout.
+            r2 = discharge_one(ob, tier, inproc * 5, ext_s * 4)
+            if r2.status != "unknown":
+                r2.detail = ((r2.detail or "") + " [decided on the second attempt with a larger budget]").strip()
+                r = r2
+        out.append(r)
+    return out
 
 
 def run_case(harness, **kw):
